@@ -5,7 +5,9 @@ from ._util import _skip_id
 
 class InlineGraph:
     def __call__(self, x, transform):
-        if isinstance(x, tracer.Graph):
+        if isinstance(x, tracer.Graph) and x.name is None:
+            # Only anonymous (inner) functions are inlined. A named graph is the operation itself: Replacing it with the wrapped
+            # function would leave no function definition in the generated code (graph=True would only show the imports).
             output = _skip_id(x.output)
             if isinstance(output, tracer.Tracer) and isinstance(output.origin, tracer.signature.python.Call) and len(output.origin.kwargs) == 0:
                 function_inputs = [_skip_id(i) for i in output.origin.args]
